@@ -170,9 +170,17 @@ var errStub = errors.New("verif: stub minifier failed")
 
 func stubFn(kind string) minify.MinifierFunc {
 	return func(m *minify.M, w io.Writer, r io.Reader, params map[string]string) error {
+		// like the real minifiers, work in place on the buffer of the reader when it exposes one
+		var inplace []byte
+		if bb, ok := r.(interface{ Bytes() []byte }); ok {
+			inplace = bb.Bytes()
+		}
 		b, _ := io.ReadAll(r)
 		out, err := applyStub(kind, b)
 		if err != nil {
+			for i := range inplace {
+				inplace[i] = 'X' // a failing minifier has usually rewritten part of its input already
+			}
 			w.Write([]byte("partial"))
 			return err
 		}
